@@ -136,17 +136,34 @@ package clusters
 //@   ensures [error_keeps] result != nil ==> c.featuregate == old(c.featuregate) && fgval[c.featuregate] == old(fgval[c.featuregate])
 //@   ensures [wf] fgWF
 
+// The stored TLS material is a function of the stored SecureServing alone (so it cannot depend on the history):
+//@ const TLSP = unbox(c.currentSecureServingTLSConfig.v, "*secureServingConfig")
+//@ const tlsStored = typeis(c.currentSecureServingTLSConfig.v, "*secureServingConfig") && TLSP != nil && allocated(TLSP)
+//@ const SS = TLSP.secureServing
+//@ const tlsWF = tlsStored ==> SS != nil && allocated(SS) && (len(SS.ClientCAData) == 0 ==> TLSP.clientCA == nil && TLSP.verifyOptions == nil) && (len(SS.ClientCAData) > 0 ==> TLSP.clientCA != nil && allocated(TLSP.clientCA) && poolcerts[TLSP.clientCA] == caCertsOf(SS.ClientCAData) && TLSP.verifyOptions != nil && TLSP.verifyOptions.Roots == TLSP.clientCA) && (len(SS.KeyData) > 0 && len(SS.CertData) > 0 ==> len(TLSP.certs) == 1 && TLSP.certs[0] == pairOf(SS.CertData, SS.KeyData)) && (!(len(SS.KeyData) > 0 && len(SS.CertData) > 0) ==> len(TLSP.certs) == 0)
+//@ const tlsEmptyOrStored = c.currentSecureServingTLSConfig.v == nil || tlsStored
+
 //@ func (*ClusterInfo).syncSecureServingConfigLocked props C11
-//@   modifies c.currentSecureServingTLSConfig
-//@   loop 0: invariant [t] true
+//@   requires [wf] tlsEmptyOrStored && tlsWF
+//@   modifies c.currentSecureServingTLSConfig, poolcerts
+//@   ensures [wf] tlsEmptyOrStored && tlsWF
+//@   ensures [latest_stored] result == nil ==> tlsStored && *SS == newSecureServing
+//@   ensures [error_keeps] result != nil ==> c.currentSecureServingTLSConfig == old(c.currentSecureServingTLSConfig)
+//@   ensures [pools_kept] forall p ref :: {poolcerts[p]} !fresh(p) ==> poolcerts[p] == old(poolcerts[p])
+//@   loop 0: invariant [bounds] 0 <= idx && idx <= len(newClientCAs) && newClientCAPool != nil && fresh(newClientCAPool)
+//@   loop 0: invariant [pool] poolcerts[newClientCAPool] == take(newClientCAs, idx)
+//@   loop 0: invariant [pools_kept] forall p ref :: {poolcerts[p]} !fresh(p) ==> poolcerts[p] == old(poolcerts[p])
 
 //@ func (*ClusterInfo).Sync props C11
 //@   requires [obj] cluster != nil
 //@   requires [latest] cluster == latestobj
 //@   requires [wf] fgWF
 //@   requires [eps] epsWF && epsInj && (c.skipSyncEndpoints || c.restConfig != nil)
+//@   requires [tls] tlsEmptyOrStored && tlsWF
 //@   modifies *
 //@   ensures [wf] fgWF
+//@   ensures [tls] tlsEmptyOrStored && tlsWF
+//@   ensures [tls_latest] result == nil && nameMatches ==> tlsStored && *SS == old(cluster.Spec.SecureServing)
 //@   ensures [eps] epsWF && epsInj && c.skipSyncEndpoints == old(c.skipSyncEndpoints) && c.restConfig == old(c.restConfig)
 //@   ensures [endpoints_latest] result == nil && nameMatches && !old(c.skipSyncEndpoints) ==> forall k ref :: {smhas(EPC, k)} smhas(EPC, k) <==> typeis(k, "string") && serverListed(old(cluster.Spec.Servers), unbox(k, "string"))
 //@   ensures [disabled_latest] result == nil && nameMatches && !old(c.skipSyncEndpoints) ==> forall i int :: {old(cluster.Spec.Servers)[i]} 0 <= i && i < len(old(cluster.Spec.Servers)) ==> unbox(smget(EPC, box(old(cluster.Spec.Servers)[i].Endpoint)), "*EndpointInfo").status.Disabled == (exists j int :: {old(cluster.Spec.Servers)[j]} 0 <= j && j < len(old(cluster.Spec.Servers)) && old(cluster.Spec.Servers)[j].Endpoint == old(cluster.Spec.Servers)[i].Endpoint && old(cluster.Spec.Servers[j].Disabled) != nil && old(*cluster.Spec.Servers[j].Disabled))
@@ -167,6 +184,7 @@ package clusters
 //@   ensures [wf] result != nil && (result.featuregate in fgalive) && result.featuregate != DEFAULTFG && fgval[result.featuregate] == gdefault() && defaultWF
 //@   ensures [name] result.Cluster == toLower(clusterName)
 //@   ensures [ctx_pair] result.ctx != nil && result.cancel != nil && cancelOf(result.ctx) == result.cancel
+//@   ensures [tls_empty] result.currentSecureServingTLSConfig.v == nil
 //@   ensures [eps_empty] result.Endpoints != nil && (forall k ref :: {smhas(&result.Endpoints.data, k)} !smhas(&result.Endpoints.data, k)) && result.restConfig == config && result.skipSyncEndpoints == (config == nil && healthCheck == nil)
 
 //@ func CreateClusterInfo props C11
@@ -277,5 +295,10 @@ package clusters
 //@   loop 1: invariant [disabled] forall x ref :: {x in gsmem[disabled]} (x in gsmem[disabled]) <==> typeis(x, "string") && exists j int :: {servers[j]} 0 <= j && j < idx && servers[j].Endpoint == unbox(x, "string") && servers[j].Disabled != nil && *servers[j].Disabled
 //@   loop 1: invariant [wanted] disabled != wantedEPs && forall x ref :: {x in gsmem[wantedEPs]} (x in gsmem[wantedEPs]) <==> typeis(x, "string") && serverListed(servers, unbox(x, "string"))
 
+//@ const xTLSP = unbox(x.currentSecureServingTLSConfig.v, "*clusters.secureServingConfig")
+//@ const xtlsStored = typeis(x.currentSecureServingTLSConfig.v, "*clusters.secureServingConfig") && xTLSP != nil && allocated(xTLSP)
+//@ const xSS = xTLSP.secureServing
+//@ const xtlsWF = xtlsStored ==> xSS != nil && allocated(xSS) && (len(xSS.ClientCAData) == 0 ==> xTLSP.clientCA == nil && xTLSP.verifyOptions == nil) && (len(xSS.ClientCAData) > 0 ==> xTLSP.clientCA != nil && allocated(xTLSP.clientCA) && poolcerts[xTLSP.clientCA] == caCertsOf(xSS.ClientCAData) && xTLSP.verifyOptions != nil && xTLSP.verifyOptions.Roots == xTLSP.clientCA) && (len(xSS.KeyData) > 0 && len(xSS.CertData) > 0 ==> len(xTLSP.certs) == 1 && xTLSP.certs[0] == pairOf(xSS.CertData, xSS.KeyData)) && (!(len(xSS.KeyData) > 0 && len(xSS.CertData) > 0) ==> len(xTLSP.certs) == 0)
+//@ const xtlsEmptyOrStored = x.currentSecureServingTLSConfig.v == nil || xtlsStored
 //@ const xEPC = &x.Endpoints.data
-//@ const xClusterWF = (x.featuregate in fgalive) && x.featuregate != DEFAULTFG && x.Endpoints != nil && (x.skipSyncEndpoints || x.restConfig != nil) && (forall k ref :: {smhas(xEPC, k)} smhas(xEPC, k) ==> typeis(k, "string") && typeis(smget(xEPC, k), "*clusters.EndpointInfo") && unbox(smget(xEPC, k), "*clusters.EndpointInfo") != nil && unbox(smget(xEPC, k), "*clusters.EndpointInfo").Endpoint == unbox(k, "string") && unbox(smget(xEPC, k), "*clusters.EndpointInfo").status != nil && allocated(unbox(smget(xEPC, k), "*clusters.EndpointInfo")) && allocated(unbox(smget(xEPC, k), "*clusters.EndpointInfo").status)) && (forall k1 ref, k2 ref :: {smhas(xEPC, k1), smhas(xEPC, k2)} smhas(xEPC, k1) && smhas(xEPC, k2) && k1 != k2 ==> unbox(smget(xEPC, k1), "*clusters.EndpointInfo").status != unbox(smget(xEPC, k2), "*clusters.EndpointInfo").status)
+//@ const xClusterWF = xtlsEmptyOrStored && xtlsWF && (x.featuregate in fgalive) && x.featuregate != DEFAULTFG && x.Endpoints != nil && (x.skipSyncEndpoints || x.restConfig != nil) && (forall k ref :: {smhas(xEPC, k)} smhas(xEPC, k) ==> typeis(k, "string") && typeis(smget(xEPC, k), "*clusters.EndpointInfo") && unbox(smget(xEPC, k), "*clusters.EndpointInfo") != nil && unbox(smget(xEPC, k), "*clusters.EndpointInfo").Endpoint == unbox(k, "string") && unbox(smget(xEPC, k), "*clusters.EndpointInfo").status != nil && allocated(unbox(smget(xEPC, k), "*clusters.EndpointInfo")) && allocated(unbox(smget(xEPC, k), "*clusters.EndpointInfo").status)) && (forall k1 ref, k2 ref :: {smhas(xEPC, k1), smhas(xEPC, k2)} smhas(xEPC, k1) && smhas(xEPC, k2) && k1 != k2 ==> unbox(smget(xEPC, k1), "*clusters.EndpointInfo").status != unbox(smget(xEPC, k2), "*clusters.EndpointInfo").status)
